@@ -85,6 +85,9 @@ def baselines():
     add("tab-value", request(headers=[H, (b"X-T", b"a\tb")]))
     add("upgrade-ws", request(headers=[H, (b"Upgrade", b"websocket"), (b"Connection", b"Upgrade")]))
     add("upgrade-other", request(headers=[H, (b"Upgrade", b"h2c"), (b"Connection", b"Upgrade")]))
+    # an upgrade request that carries a body: the upgrade takes effect only behind the whole body
+    add("upgrade-ws-cl", request(method=b"POST", headers=[H, (b"Upgrade", b"websocket"), (b"Connection", b"Upgrade"), (b"Content-Length", b"6")], body=b"abcdef"))
+    add("upgrade-ws-chunked", request(method=b"POST", headers=[H, (b"Upgrade", b"websocket"), (b"Connection", b"Upgrade"), TE], chunks=[b"ab", b"cdef"]))
     add("connect", request(method=b"CONNECT", target=b"a:443", headers=[(b"Host", b"a:443")]))
     add("expect", request(method=b"POST", headers=[H, (b"Expect", b"100-continue"), (b"Content-Length", b"2")], body=b"ok"))
     return out
